@@ -113,6 +113,8 @@ PROPS = {
         "runs": [
             {"family": "hist", "flags": ["--faults"], "quick": {"cases": 400, "max_len": 35}, "thorough": {"cases": 6000, "max_len": 80}},
             {"family": "hist", "flags": ["--faults", "--stepped"], "quick": {"cases": 150, "max_len": 40}, "thorough": {"cases": 3000, "max_len": 80}},
+            # an interrupted FIRST sync of a late joiner (snapshot, then the versions after it): nothing may stay behind
+            {"family": "hist", "flags": ["--faults", "--snapshots"], "quick": {"cases": 150, "max_len": 35}, "thorough": {"cases": 3000, "max_len": 80}},
         ],
         "judge_preds": ["converged", "invariant", "no-out-of-sync"],
         "nontrivial": nt_fault,
@@ -303,6 +305,9 @@ PROPS = {
         "runs": [
             {"family": "rep", "flags": ["--crash"], "quick": {"cases": 60, "max_len": 25}, "thorough": {"cases": 1500, "max_len": 40}},
             {"family": "sqlkill", "driver": "rep", "flags": [], "quick": {"cases": 40, "max_len": 400}, "thorough": {"cases": 600, "max_len": 1500}},
+            # interrupted syncs of several replicas (one third on SQLite), incl. the first sync of a late joiner that
+            # starts from a snapshot: after the interruption the replica holds the before-state (dump after every fault)
+            {"family": "hist", "flags": ["--faults", "--snapshots"], "quick": {"cases": 100, "max_len": 35}, "thorough": {"cases": 2000, "max_len": 80}},
         ],
         "judge_preds": ["atomic"],
         "nontrivial": lambda imp, ops: any(l.startswith("F ") for l in ops),
